@@ -9,4 +9,7 @@ EXPLANATION = (
 ASSUMED = ["spec TS/DUR == google.protobuf FromDatetime/FromTimedelta: bounded differential only",
            "RFC 3339 / decimal-seconds string forms: bounded stand-in only (string formatting is outside the proved subset)"]
 from pyvc.check import standin_bounded
-BOUNDED = [standin_bounded("C15")]
+from pyvc.check import external_bounded
+BOUNDED = [standin_bounded("C15"),
+           external_bounded("deep-schema:C15", "standin.deep", ["C15", "--n", "150"], ["C15", "--n", "800"],
+                            "nested schema (containers of oneof-carrying / field-less messages, two-level lazy parents, float maps, Duration JSON strings); observation-based oracle")]
